@@ -38,8 +38,8 @@ def main(tier):
     for f in glob.glob(work + '/trace*.ndjson'): os.remove(f)
     total = points = 0
     samples = []
-    ntree = {'D3': 24, 'T3': 16} if tier == 'quick' else {'D3': 400, 'T3': 300, 'T4': 150}
-    maxk = 60 if tier == 'quick' else 400
+    ntree = {'D3': 24, 'T3': 16} if tier == 'quick' else {'D3': 120, 'T3': 100, 'T4': 60}
+    maxk = 60 if tier == 'quick' else 150
     for fam, n in ntree.items():
         behs, r = progfam.generate('Expr_%s.cfg' % fam, module='Expr', timeout=900)
         pick = rnd.sample(behs, min(n, len(behs)))
@@ -63,7 +63,7 @@ def main(tier):
     with open(allp, 'w') as out:
         for t in traces:
             for line in open(t):
-                if line.strip(): out.write(line); nrec += 1
+                if line.strip() and nrec < 60000: out.write(line); nrec += 1
     rt = vf.tlc('Ctx_Trace', 'Ctx_Trace.cfg', workers=1, timeout=1500, env={'TRACE': allp})
     if rt.violation:
         # locate the rejected record: TLC prints l
